@@ -29,7 +29,7 @@ def run(ctx):
     proved = ctx.prove(props=["GqlgenVerif.Props.C13"])
     if not proved:
         ctx.cov["proof_failure"] = ctx.proof_failure
-    cfgs = ["base", "wl2"] if ctx.tier == "quick" else ["base", "wl1", "wl2", "follow_funcsyn_wl2", "noptr"]
+    cfgs = ["base", "wl2", "follow_funcsyn_wl2"] if ctx.tier == "quick" else ["base", "wl1", "wl2", "follow_funcsyn_wl2", "noptr"]
     n = 700 if ctx.tier == "quick" else 8000
     built = gensrv.build_matrix(ctx, "exec", cfgs)
     dist = Counter()
